@@ -19,6 +19,16 @@ PINNED_FLAT = [[k, k] for k in ["name", "default", "description", "aliases", "id
                                 "scale", "precision", "lowest_value", "highest_value", "null_count"]]
 PINNED_RESTORES = [["name", "name"], ["aliases", "aliases"], ["primary_key", "primary_key"], ["columns", "columns"]]
 PINNED_DISPOSITIONS = [["NAME", "name"], ["AGE", "age"]]
+# statement-level items (round 2)
+PINNED_FROM_DICT_RULES = [
+    [[["eqValue", "type", "_MISSING_TYPE"]], "type", "_MISSING_TYPE"],
+    [[["eqValue", "element_type", "_MISSING_TYPE"]], "element_type", "_MISSING_TYPE"],
+    [[["eqValue", "type", "ARRAY"], ["present", "element_type", ""], ["isNone", "element_type", ""]], "type", "ARRAY"],
+]
+PINNED_INIT_FILLS = [["element_type", "isNone", "elem"], ["precision", "isNone", "precision"], ["scale", "isNone", "scale"],
+                     ["length", "isNone", "length"]]
+PINNED_DECIMAL_FILLS = [["precision", "isNone"], ["scale", "isNone"]]
+PINNED_LITERAL_GUARDS = [["type", "notMember"], ["element_type", "notNoneNotMember"], ["disposition", "notNoneNotMember"]]
 
 
 def _class(src, name):
@@ -82,8 +92,218 @@ def _uses_asdict_of_self(fn):
     return False
 
 
+def _is_self_attr(n, attr=None):
+    return isinstance(n, ast.Attribute) and isinstance(n.value, ast.Name) and n.value.id == "self" and (attr is None or n.attr == attr)
+
+
+def _orso_member(n):
+    """`OrsoTypes.X` -> 'X'"""
+    if isinstance(n, ast.Attribute) and isinstance(n.value, ast.Name) and n.value.id == "OrsoTypes":
+        return n.attr
+    raise KeyError("not an OrsoTypes member")
+
+
+def _from_dict_rules(schema):
+    """FlatColumn.from_dict, statement by statement: `if <conds>: dic = {**dic, "k": OrsoTypes.M}` ... `return cls(**dic)`.
+    conds: `dic.get("k") == OrsoTypes.M.value`, `"k" in dic`, `dic["k"] is None`, joined by `and`."""
+    fn = _method(schema, "FlatColumn", "from_dict")
+    dic = fn.args.args[1].arg
+    body = [s for s in fn.body if not (isinstance(s, ast.Expr) and isinstance(s.value, ast.Constant))]  # docstring
+    if not body:
+        raise KeyError("empty body")
+    last = body[-1]
+    ok = isinstance(last, ast.Return) and isinstance(last.value, ast.Call) and isinstance(last.value.func, ast.Name) \
+        and last.value.func.id == "cls" and not last.value.args and len(last.value.keywords) == 1 \
+        and last.value.keywords[0].arg is None and isinstance(last.value.keywords[0].value, ast.Name) \
+        and last.value.keywords[0].value.id == dic
+    if not ok:
+        raise KeyError("does not end with return cls(**dic)")
+
+    def cond(t):
+        if isinstance(t, ast.Compare) and len(t.ops) == 1:
+            left, op, right = t.left, t.ops[0], t.comparators[0]
+            if isinstance(op, ast.Eq):
+                key = _dict_key(left, dic)
+                if not (isinstance(left, ast.Call) and len(left.args) == 1):
+                    raise KeyError("== on something other than dic.get(k)")
+                if isinstance(right, ast.Attribute) and right.attr == "value":
+                    return ["eqValue", key, _orso_member(right.value)]
+            if isinstance(op, ast.In) and isinstance(left, ast.Constant) and isinstance(left.value, str) \
+                    and isinstance(right, ast.Name) and right.id == dic:
+                return ["present", left.value, ""]
+            if isinstance(op, ast.Is) and isinstance(right, ast.Constant) and right.value is None \
+                    and isinstance(left, ast.Subscript):
+                return ["isNone", _dict_key(left, dic), ""]
+        raise KeyError("condition shape: " + ast.unparse(t)[:40])
+
+    rules = []
+    for st in body[:-1]:
+        if not (isinstance(st, ast.If) and not st.orelse and len(st.body) == 1):
+            raise KeyError("statement shape: " + ast.unparse(st)[:40])
+        conds = [cond(v) for v in st.test.values] if isinstance(st.test, ast.BoolOp) and isinstance(st.test.op, ast.And) else [cond(st.test)]
+        seen = set()
+        for c in conds:  # `dic[k] is None` only after `k in dic` (otherwise a KeyError path the model does not have)
+            if c[0] == "isNone" and c[1] not in seen:
+                raise KeyError("dic[k] is None without k in dic")
+            if c[0] == "present":
+                seen.add(c[1])
+        a = st.body[0]
+        if not (isinstance(a, ast.Assign) and len(a.targets) == 1 and isinstance(a.targets[0], ast.Name) and a.targets[0].id == dic
+                and isinstance(a.value, ast.Dict) and len(a.value.keys) == 2 and a.value.keys[0] is None
+                and isinstance(a.value.values[0], ast.Name) and a.value.values[0].id == dic
+                and isinstance(a.value.keys[1], ast.Constant)):
+            raise KeyError("assignment shape: " + ast.unparse(a)[:40])
+        key = a.value.keys[1].value
+        if key not in ("type", "element_type") or any(c[1] not in ("type", "element_type") for c in conds):
+            raise KeyError("rule on another key")
+        rules.append([conds, key, _orso_member(a.value.values[1])])
+    return rules
+
+
+def _init_type_block(schema):
+    """FlatColumn.__init__: the `if self.type.__class__ is not OrsoTypes:` block -> (unpacking targets, fill statements)"""
+    fn = _method(schema, "FlatColumn", "__init__")
+    for st in fn.body:
+        if isinstance(st, ast.If) and ast.unparse(st.test) == "self.type.__class__ is not OrsoTypes":
+            first = st.body[0]
+            if not (isinstance(first, ast.Assign) and len(first.targets) == 1 and isinstance(first.targets[0], ast.Tuple)
+                    and ast.unparse(first.value) == "OrsoTypes.from_name(self.type)"):
+                raise KeyError("unpacking of from_name")
+            targets = []
+            for t in first.targets[0].elts:
+                targets.append("self." + t.attr if _is_self_attr(t) else t.id)
+            fills = None
+            for inner in st.body[1:]:
+                if isinstance(inner, ast.If) and ast.unparse(inner.test) == "isinstance(self.type, OrsoTypes)":
+                    fills = inner.body
+            if fills is None:
+                raise KeyError("isinstance(self.type, OrsoTypes) block")
+            return targets, fills
+    raise KeyError("type literal block")
+
+
+def _from_name_return(types):
+    fn = types.func("from_name", "OrsoTypes")
+    rets = [n for n in ast.walk(fn) if isinstance(n, ast.Return) and isinstance(n.value, ast.Tuple)]
+    names = [tuple(e.id for e in r.value.elts[1:]) for r in rets]  # the first element is the type (a member or `_type`)
+    if not names or len(set(names)) != 1:
+        raise KeyError("from_name returns")
+    return ["_type"] + list(names[0])
+
+
+FIELD_OF_RETURN = {"_type": "type", "_length": "length", "_precision": "precision", "_scale": "scale", "_element_type": "elem"}
+
+
+def _init_fills(schema, types):
+    targets, fills = _init_type_block(schema)
+    ret = _from_name_return(types)
+    if len(targets) != len(ret) or targets[0] != "self.type" or ret[0] != "_type":
+        raise KeyError("unpacking does not match from_name's return")
+    var_field = {t: FIELD_OF_RETURN[r] for t, r in zip(targets[1:], ret[1:])}
+    out = []
+    for st in fills:
+        # `if self.A is None: self.A = _b`   |   `self.A = self.A or _b`
+        if isinstance(st, ast.If) and not st.orelse and len(st.body) == 1 and isinstance(st.test, ast.Compare) \
+                and len(st.test.ops) == 1 and isinstance(st.test.ops[0], ast.Is) and _is_self_attr(st.test.left) \
+                and isinstance(st.test.comparators[0], ast.Constant) and st.test.comparators[0].value is None:
+            a = st.body[0]
+            if isinstance(a, ast.Assign) and len(a.targets) == 1 and _is_self_attr(a.targets[0], st.test.left.attr) \
+                    and isinstance(a.value, ast.Name):
+                out.append([st.test.left.attr, "isNone", var_field[a.value.id]])
+                continue
+        if isinstance(st, ast.Assign) and len(st.targets) == 1 and _is_self_attr(st.targets[0]) \
+                and isinstance(st.value, ast.BoolOp) and isinstance(st.value.op, ast.Or) and len(st.value.values) == 2 \
+                and _is_self_attr(st.value.values[0], st.targets[0].attr) and isinstance(st.value.values[1], ast.Name):
+            out.append([st.targets[0].attr, "falsy", var_field[st.value.values[1].id]])
+            continue
+        raise KeyError("fill statement shape: " + ast.unparse(st)[:40])
+    for attr, _, field in out:
+        if attr not in ("element_type", "precision", "scale", "length") or (attr == "element_type") != (field == "elem"):
+            raise KeyError("fill of another attribute")
+    if len(set(a for a, _, _ in out)) != len(out):
+        raise KeyError("an attribute filled twice")
+    return out
+
+
+def _decimal_fills(schema):
+    """`if self.type == OrsoTypes.DECIMAL and self.X is None: self.X = ...` (precision before scale)"""
+    fn = _method(schema, "FlatColumn", "__init__")
+    out = []
+    for st in fn.body:
+        if isinstance(st, ast.If) and isinstance(st.test, ast.BoolOp) and isinstance(st.test.op, ast.And) and len(st.test.values) == 2 \
+                and ast.unparse(st.test.values[0]) == "self.type == OrsoTypes.DECIMAL":
+            g = st.test.values[1]
+            if isinstance(g, ast.Compare) and len(g.ops) == 1 and isinstance(g.ops[0], ast.Is) and _is_self_attr(g.left) \
+                    and isinstance(g.comparators[0], ast.Constant) and g.comparators[0].value is None:
+                out.append([g.left.attr, "isNone"])
+            elif isinstance(g, ast.UnaryOp) and isinstance(g.op, ast.Not) and _is_self_attr(g.operand):
+                out.append([g.operand.attr, "falsy"])
+            else:
+                raise KeyError("DECIMAL guard shape: " + ast.unparse(g)[:40])
+            assigned = [a for a in st.body if isinstance(a, ast.Assign) and len(a.targets) == 1 and _is_self_attr(a.targets[0], out[-1][0])]
+            if len(assigned) != 1:
+                raise KeyError("DECIMAL default assignment")
+    if [a for a, _ in out] != ["precision", "scale"]:
+        raise KeyError("DECIMAL defaults: expected precision then scale")
+    return out
+
+
+def _literal_guards(schema):
+    """the guards of the three literal -> member mappings in __init__, in order"""
+    fn = _method(schema, "FlatColumn", "__init__")
+    shapes = {
+        "self.type.__class__ is not OrsoTypes": ["type", "notMember"],
+        "self.element_type is not None and self.element_type.__class__ is not OrsoTypes": ["element_type", "notNoneNotMember"],
+        "self.disposition is not None and self.disposition.__class__ is not ColumnDisposition": ["disposition", "notNoneNotMember"],
+    }
+    out = [shapes[ast.unparse(st.test)] for st in fn.body if isinstance(st, ast.If) and ast.unparse(st.test) in shapes]
+    if out != PINNED_LITERAL_GUARDS:
+        raise KeyError("literal mapping guards")
+    return out
+
+
+def _enum_written_as(schema):
+    fn = _method(schema, "RelationSchema", "to_dict")
+    for n in ast.walk(fn):
+        if isinstance(n, ast.IfExp) and ast.unparse(n.test) in ("isinstance(value, Enum)", "isinstance(value, enum.Enum)") \
+                and isinstance(n.body, ast.Attribute) and ast.unparse(n.body.value) == "value" and ast.unparse(n.orelse) == "value" \
+                and n.body.attr in ("value", "name"):
+            return n.body.attr
+    raise KeyError("_converter shape")
+
+
+def _column_loader(schema):
+    """RelationSchema.from_dict: how a dictionary column is loaded -> 'from_dict' | 'init'"""
+    fn = _method(schema, "RelationSchema", "from_dict")
+    for n in ast.walk(fn):
+        if isinstance(n, ast.If) and ast.unparse(n.test).startswith("isinstance(") and ast.unparse(n.test).endswith(", dict)"):
+            calls = [c for c in ast.walk(n) if isinstance(c, ast.Call) and isinstance(c.func, ast.Attribute) and c.func.attr == "append"]
+            if len(calls) == 1 and len(calls[0].args) == 1 and isinstance(calls[0].args[0], ast.Call):
+                inner = calls[0].args[0]
+                f = ast.unparse(inner.func)
+                if f == "FlatColumn.from_dict" and len(inner.args) == 1 and not inner.keywords:
+                    return "from_dict"
+                if f == "FlatColumn" and not inner.args and len(inner.keywords) == 1 and inner.keywords[0].arg is None:
+                    return "init"
+    raise KeyError("column loader")
+
+
+def _json_loader(schema):
+    fn = _method(schema, "FlatColumn", "from_json")
+    rets = [s for s in fn.body if isinstance(s, ast.Return)]
+    if len(rets) == 1 and isinstance(rets[0].value, ast.Call):
+        c = rets[0].value
+        f = ast.unparse(c.func)
+        if f in ("cls.from_dict", "FlatColumn.from_dict") and len(c.args) == 1 and not c.keywords:
+            return "from_dict"
+        if f in ("cls", "FlatColumn") and not c.args and len(c.keywords) == 1 and c.keywords[0].arg is None:
+            return "init"
+    raise KeyError("from_json loader")
+
+
 def generate(o):
     schema = Src("orso/schema.py")
+    types = Src("orso/types.py")
 
     cf = o.item("schema.FlatColumn.fields", lambda: _fields(schema, "FlatColumn"), PINNED_COLUMN_FIELDS)
     sf = o.item("schema.RelationSchema.fields", lambda: _fields(schema, "RelationSchema"), PINNED_SCHEMA_FIELDS)
@@ -146,8 +366,19 @@ def generate(o):
 
     dp = o.item("schema.ColumnDisposition.members", dispositions, PINNED_DISPOSITIONS)
 
+    fr = o.item("schema.FlatColumn.from_dict.rules", lambda: _from_dict_rules(schema), PINNED_FROM_DICT_RULES)
+    fills = o.item("schema.FlatColumn.__init__.fills", lambda: _init_fills(schema, types), PINNED_INIT_FILLS)
+    dfills = o.item("schema.FlatColumn.__init__.decimal_fills", lambda: _decimal_fills(schema), PINNED_DECIMAL_FILLS)
+    o.item("schema.FlatColumn.__init__.literal_guards", lambda: _literal_guards(schema), PINNED_LITERAL_GUARDS)
+    ew = o.item("schema.to_dict.enum_written_as", lambda: _enum_written_as(schema), "value")
+    cl = o.item("schema.from_dict.column_loader", lambda: _column_loader(schema), "from_dict")
+    jl = o.item("schema.from_json.loader", lambda: _json_loader(schema), "from_dict")
+
     def pairs(xs):
         return lean_list(xs, lambda p: "(%s, %s)" % (lean_str(p[0]), lean_str(p[1])))
+
+    def triples(xs):
+        return lean_list(xs, lambda p: "(%s, %s, %s)" % (lean_str(p[0]), lean_str(p[1]), lean_str(p[2])))
 
     t = HEADER + "namespace Gen.Persist\n"
     t += "/-- dataclass fields of `FlatColumn`, in declaration order (what `asdict` emits and `__init__` reads) -/\n"
@@ -163,5 +394,20 @@ def generate(o):
     t += "def toJsonAsdict : Bool := %s\n" % ("true" if tj else "false")
     t += "/-- `ColumnDisposition` members: (name, value) -/\n"
     t += "def dispositions : List (String × String) := %s\n" % pairs(dp)
+    t += "/-- `FlatColumn.from_dict`, statement by statement: `if <conditions>: dic = {**dic, key: OrsoTypes.<member>}` (in order), then\n"
+    t += "`cls(**dic)`.  A condition is (kind, key, member): `eqValue` = `dic.get(key) == OrsoTypes.<member>.value`, `present` = `key in dic`,\n"
+    t += "`isNone` = `dic[key] is None`.  Entry = (conditions, key assigned, member assigned). -/\n"
+    t += "def fromDictRules : List (List (String × String × String) × String × String) := %s\n" % lean_list(
+        fr, lambda r: "(%s, %s, %s)" % (triples(r[0]), lean_str(r[1]), lean_str(r[2])))
+    t += "/-- `FlatColumn.__init__`, the block that maps a type literal: which attributes are filled from what `from_name` parsed,\n"
+    t += "(attribute, guard, field of the parsed description); guard `isNone` = `if self.a is None: self.a = _b`, `falsy` = `self.a = self.a or _b` -/\n"
+    t += "def initFills : List (String × String × String) := %s\n" % triples(fills)
+    t += "/-- `FlatColumn.__init__`: the guards of the DECIMAL defaults, (attribute, `isNone` | `falsy`) -/\n"
+    t += "def decimalFills : List (String × String) := %s\n" % pairs(dfills)
+    t += "/-- `RelationSchema.to_dict._converter`: the attribute of an enum member that is written (`value` | `name`) -/\n"
+    t += "def enumWrittenAs : String := %s\n" % lean_str(ew)
+    t += "/-- how `RelationSchema.from_dict` loads a dictionary column / `from_json` the parsed object: `from_dict` | `init` (= `cls(**dic)`) -/\n"
+    t += "def columnLoader : String := %s\n" % lean_str(cl)
+    t += "def jsonLoader : String := %s\n" % lean_str(jl)
     t += "end Gen.Persist\n"
     o.files["Persist.lean"] = t
